@@ -207,6 +207,11 @@ func main() {
 		if ms := time.Since(tRun).Milliseconds(); ms > sum.SlowMs {
 			sum.SlowMs, sum.SlowRun = ms, i
 		}
+		if o.Infra == "too many tasks" {
+			// the generated scenario outgrew the simulator's task table: the run is dropped unjudged and counted
+			sum.Counters["runs_dropped/too_many_tasks"]++
+			continue
+		}
 		if o.Infra != "" {
 			sum.Infra = fmt.Sprintf("run %d: %s", i, o.Infra)
 			break
